@@ -12,6 +12,7 @@ func universe() []*Val {
 		vnil(), vb(true), vb(false),
 		vl(), vl(vi(1)), vl(vi(1), vi(2)), vl(vi(2), vi(1)), vl(vi(1), vi(2), vi(3)), vl(vs("a"), vi(1)),
 		vl(vl(vi(1), vi(2)), vi(3)), vl(vset(vi(1)), vi(2)), vl(vnil(), vi(1)),
+		vl(vi(9), vl(vi(1)), vl(vi(2)), vi(3)), vl(vi(8), vi(9), vl(vi(1)), vl(vi(7), vi(2)), vi(3)), vl(vl(vi(1)), vl(vi(2)), vi(3)),
 		vt(), vt(vi(1), vi(2)), vt(vi(1), vl(vi(2))),
 		vmap(kMap, vi(1), vi(2)), vmap(kMap, vi(1), vi(2), vi(3), vi(4)), vmap(kMap, vy("a"), vi(1)), vmap(kMap, vi(1), vl(vi(1), vi(2))), vmap(kMap, vi(1), vnil()),
 		vmap(kRec, vy("a"), vi(1)), vmap(kRec, vy("a"), vi(1), vy("b"), vi(2)), vmap(kRec, vy("a"), vl(vi(1))),
@@ -373,6 +374,22 @@ func depth2(thorough bool) []group {
 		}
 	}
 	gs = append(gs, group{"rest-lists-combined", extra})
+	// an outer list pattern with a leading rest element followed by sibling nested list patterns (with and without rest
+	// elements of their own): the hidden length / iterator locals of the nesting levels must not be mixed up
+	nested := func() []*Pat {
+		return []*Pat{pSeq(fList, -1, false, pLit(vi(1))), pSeq(fList, 0, false, pLit(vi(2))), pSeq(fList, 0, true, pLit(vi(2))), pSeq(fList, -1, false, pBind()), pLit(vi(3)), pBind()}
+	}
+	var sib []*Pat
+	for ai := range nested() {
+		for bi := range nested() {
+			for _, named := range []bool{false, true} {
+				for _, last := range []*Pat{pLit(vi(3)), pBind()} {
+					sib = append(sib, pSeq(fList, 0, named, nested()[ai], nested()[bi], last.clone()))
+				}
+			}
+		}
+	}
+	gs = append(gs, group{"sibling-nested-lists", sib})
 	// the same variable bound by both alternatives (it keeps the value of the alternative that matched)
 	sv := func() *Pat { return pVar("sv") }
 	l1 := func() *Pat { return pSeq(fList, -1, false, sv(), pLit(vi(1))) }
